@@ -15,11 +15,11 @@ RULE = ("one case = one run of minimize_lbfgsb: family from all 14 (convex, non-
         "Non-trivial = run with >=1 evaluation after the first whose point has a component exactly on a finite bound; distinct = distinct specs")
 ASSUMPTIONS = ["exact comparisons lb <= Re(x) <= ub, NaN fails; complex arguments allowed only in 'cs' mode"]
 MODES = ("callable", "callable", None, "2-point", "3-point", "cs")
-BOXES = ("mixed", "mixed", "boxed", "narrow", "narrow", "lower", "upper", "boxed_degenerate", "boxed_degenerate")
+BOXES = ("mixed", "mixed", "boxed", "narrow", "narrow", "lower", "upper", "boxed_degenerate", "boxed_degenerate", "nonneg", "unit", "zero_mixed", "nonpos")
 
 
 def floors(tier):
-    return {"runs": 500, "points_checked": 5000, "evaluations_with_component_on_bound": 1500, "fd_runs": 150, "__nontrivial__": 200}
+    return {"runs": 500, "points_checked": 5000, "evaluations_with_component_on_bound": 1500, "fd_runs": 150, "runs_with_bounds_object_edited_in_place": 60, "__nontrivial__": 200}
 
 
 def cases(tier, seed):
@@ -32,7 +32,7 @@ def cases(tier, seed):
         cfg["eps"] = float(gen.pick(rng, [1e-8, 1e-6]))
         cfg["finite_diff_rel_step"] = gen.pick(rng, [None, None, 1e-7])
         cfg["cb"] = "never"
-        yield {"problem": ps, "cfg": cfg}
+        yield {"problem": ps, "cfg": cfg, "edit_bounds": bool(i % 6 == 0)}
 
 
 def run(spec):
@@ -50,6 +50,25 @@ def run(spec):
     if tr.exc is not None:
         out.count("runs_raised")
         out.count("raised:" + type(tr.exc).__name__)
+    # second call with the SAME bounds array, tightened in place by the user (freeze a variable at its current value,
+    # shrink the others around the solution): every point of the second run must respect the box as it is now
+    if spec.get("edit_bounds") and tr.result is not None and not out.violations:
+        barr = P.bounds.copy()
+        first = probes.run_min(P, cfg, hooks={"bounds_obj": barr})
+        if first.result is not None:
+            xs = np.array(first.result.x, dtype=float)
+            lo = np.where(np.isfinite(P.lb), P.lb, xs - 2.0)
+            hi = np.where(np.isfinite(P.ub), P.ub, xs + 2.0)
+            barr[:, 0] = np.maximum(lo, xs - 0.25 * (hi - lo))
+            barr[:, 1] = np.minimum(hi, xs + 0.25 * (hi - lo))
+            barr[0, :] = xs[0]  # one variable frozen where it is
+            P2 = gen.make_problem(spec["problem"])
+            P2.lb, P2.ub = barr[:, 0].copy(), barr[:, 1].copy()
+            P2.bounds = np.column_stack([P2.lb, P2.ub])
+            P2.x0 = np.clip(xs + 0.1 * (P2.ub - P2.lb), P2.lb, P2.ub)
+            second = probes.run_min(P2, cfg, hooks={"bounds_obj": barr}, x0=P2.x0)
+            out.count("runs_with_bounds_object_edited_in_place")
+            e2e.mon_box(out, P2, second, cfg["jac"], dict(tags, phase="after_in_place_edit_of_the_bounds_array"))
     out.nontrivial = bool(nb)
     out.key = f"{P.spec['family']}/{P.n}/{P.spec['seed']}/{cfg['jac']}/{cfg['maxcor']}/{cfg['maxls']}"
     out.sample = dict(spec=spec, lb=P.lb, ub=P.ub, x0=P.x0, evaluations=len(tr.evals), on_bound=nb,
